@@ -39,13 +39,17 @@ def main():
     sel = [a for a in sys.argv[1:] if not a.startswith('+')]
     if sel:
         names = [n for n in names if any(n.startswith(s) for s in sel)]
+    suf = os.environ.get('SEED_SUFFIX')
+    if suf:
+        names = [n for n in names if n[-1] in suf]
+    outp = os.environ.get('RESULTS_OUT', '/verif/seeded/RESULTS.json')
     with ThreadPoolExecutor(8) as ex:
         res = dict(ex.map(one, names))
     prev = {}
-    if os.path.exists('/verif/seeded/RESULTS.json') and sel:
-        prev = json.load(open('/verif/seeded/RESULTS.json'))
+    if os.path.exists(outp) and (sel or suf):
+        prev = json.load(open(outp))
     prev.update(res)
-    json.dump(prev, open('/verif/seeded/RESULTS.json', 'w'), indent=1, sort_keys=True)
+    json.dump(prev, open(outp, 'w'), indent=1, sort_keys=True)
     for n in sorted(res):
         r = res[n]
         print('%-8s %-15s %s' % (n, r['outcome'], (r.get('reports') or [''])[0][:160]))
